@@ -121,6 +121,7 @@ class Piece:
             text = self._expand_macros(text)
         if mode != "stub":
             text = self._merge_guards(text)
+            text = self._desugar_ctrl(text)
         self.sf = SourceFile(relpath + "::" + spec, text)
         if len(self.sf.items) != 1:
             raise Undecided(f"{spec}: expected one item after extraction, got {len(self.sf.items)}")
@@ -240,6 +241,103 @@ class Piece:
                                       "from": text[toks[arm0].start:toks[c1].end], "to": new})
             text = text[:toks[arm0].start] + new + text[toks[c1].end:]
         raise Undecided("guard merge did not terminate")
+
+    def _desugar_ctrl(self, text):
+        """T-CTRL (pre-pass), two control-flow shapes the installed Verus cannot take:
+        (1) `let P = loop { .. break E; .. };`  ->  `let mut brk__ = None; loop { .. { brk__ = Some(E); break; } .. } let P = brk__.unwrap();`
+        (2) in a block, `if C { continue; } REST`  ->  `if C { } else { REST }`  (REST = the rest of the enclosing loop body)
+        Any other `break`-with-value or `continue` makes the unit undecided."""
+        for _round in range(20):
+            toks = lex(text)
+            n = len(toks)
+            done = True
+            for k in range(n - 3):
+                # (1) let PAT = loop {
+                if toks[k].text == "let":
+                    j = k + 1
+                    while j < n and toks[j].text not in ("=", ";"):
+                        if toks[j].text in OPEN:
+                            j = match_close(toks, j)
+                        j += 1
+                    if j + 2 < n and toks[j].text == "=" and toks[j + 1].text == "loop" and toks[j + 2].text == "{":
+                        lo = j + 2
+                        lc = match_close(toks, lo)
+                        if toks[lc + 1].text != ";":
+                            raise Undecided("loop-with-value outside the supported shape")
+                        pat = text[toks[k + 1].start:toks[j].start].strip()
+                        # breaks with a value directly belonging to this loop (not inside nested loops/closures)
+                        edits = []
+                        i = lo + 1
+                        while i < lc:
+                            if toks[i].text in ("loop", "while", "for") and toks[i].kind == "ident":
+                                # skip nested loop bodies
+                                m = i + 1
+                                while toks[m].text != "{":
+                                    if toks[m].text in ("(", "["):
+                                        m = match_close(toks, m)
+                                    m += 1
+                                i = match_close(toks, m) + 1
+                                continue
+                            if toks[i].text == "break" and toks[i + 1].text != ";":
+                                e = i + 1
+                                while toks[e].text != ";":
+                                    if toks[e].text in OPEN:
+                                        e = match_close(toks, e)
+                                    e += 1
+                                edits.append((toks[i].start, toks[e].end, "{ brk__ = Some(" + text[toks[i + 1].start:toks[e].start] + "); break; }"))
+                                i = e
+                            i += 1
+                        if not edits:
+                            raise Undecided("loop-with-value without a break value")
+                        new = text[:toks[k].start] + "let mut brk__ = None; loop "
+                        pos = toks[lo].start
+                        for (a, b, rep) in edits:
+                            new += text[pos:a] + rep
+                            pos = b
+                        new += text[pos:toks[lc].end] + " let " + pat + " = brk__.unwrap();" + text[toks[lc + 1].end:]
+                        self.rewrites_log.append({"rule": "T-CTRL", "file": self.relpath, "item": self.spec,
+                                                  "from": "let " + pat + " = loop { .. break E; .. };", "to": "let mut brk__ = None; loop { .. { brk__ = Some(E); break; } .. } let " + pat + " = brk__.unwrap();"})
+                        text = new
+                        done = False
+                        break
+                # (2) if C { continue; }
+                if toks[k].text == "continue":
+                    if not (toks[k + 1].text == ";" and toks[k + 2].text == "}" and toks[k - 1].text == "{"):
+                        raise Undecided("`continue` outside the supported shape")
+                    # find the `if` that owns this block
+                    j = k - 2
+                    depth = 0
+                    while j > 0 and not (toks[j].text == "if" and depth == 0):
+                        if toks[j].text in (")", "]", "}"):
+                            depth += 1
+                        elif toks[j].text in ("(", "[", "{"):
+                            depth -= 1
+                        if toks[j].text in (";",) and depth == 0:
+                            raise Undecided("`continue` outside the supported shape")
+                        j -= 1
+                    if toks[j].text != "if":
+                        raise Undecided("`continue` outside the supported shape")
+                    # enclosing block: scan forward from the if's closing brace to the brace that closes the body
+                    close_if = k + 2
+                    i = close_if + 1
+                    depth = 0
+                    while i < n:
+                        if toks[i].text in OPEN:
+                            i = match_close(toks, i) + 1
+                            continue
+                        if toks[i].text == "}":
+                            break
+                        i += 1
+                    rest = text[toks[close_if].end:toks[i].start]
+                    new = text[:toks[k - 1].start] + "{ } else {" + rest + "}\n" + text[toks[i].start:]
+                    self.rewrites_log.append({"rule": "T-CTRL", "file": self.relpath, "item": self.spec,
+                                              "from": "if C { continue; } REST", "to": "if C { } else { REST }"})
+                    text = new
+                    done = False
+                    break
+            if done:
+                return text
+        raise Undecided("control-flow desugaring did not terminate")
 
     def _dummy(self):
         pass
@@ -388,10 +486,29 @@ class Piece:
                     and toks[k + 6].text == "!" and toks[k - 1].text != ".":
                 close = match_close(toks, k + 3)
                 inner = toks[k + 8:close]
-                for i, x in enumerate(inner):
-                    if x.text == "(" and i > 0 and inner[i - 1].kind == "ident" and inner[i - 1].text not in PURE:
-                        raise Undecided(f"{fn.name}: logger call with a non-pure call `{inner[i-1].text}` in its arguments")
-                self._add(t.start, toks[close].end, "()", "T-LOG")
+                impure = any(x.text == "(" and i > 0 and inner[i - 1].kind == "ident" and inner[i - 1].text not in PURE
+                             for i, x in enumerate(inner))
+                if not impure:
+                    self._add(t.start, toks[close].end, "()", "T-LOG")
+                else:
+                    # the message is dropped but its arguments are still evaluated (they may fail with `?`)
+                    fclose = match_close(toks, k + 7)
+                    args, cur, j = [], None, k + 8
+                    while j < fclose:
+                        if toks[j].text in OPEN:
+                            j = match_close(toks, j) + 1
+                            continue
+                        if toks[j].text == ",":
+                            if cur is not None:
+                                args.append(self.sf.text[cur:toks[j].start].strip())
+                            cur = toks[j].end
+                        j += 1
+                    if cur is not None:
+                        last = self.sf.text[cur:toks[fclose].start].strip()
+                        if last:
+                            args.append(last)
+                    stmts = " ".join("let _ = " + (a.split("=", 1)[1].strip() if re.match(r"^\w+\s*=[^=]", a) else a) + ";" for a in args)
+                    self._add(t.start, toks[close].end, "{ " + stmts + " }", "T-LOG")
                 k = close
             k += 1
         # parameter list
